@@ -108,7 +108,7 @@ func runC10(r *kit.Run) {
 		c.Hook = []string{"launched: service finishes before Start's deferred stores", "checked: service finishes between a late Start's finished-check and its latch"}[i%2]
 		c10Run(r, 1_000_000+i, c, rng)
 	}
-	nr := int64(r.Scale(48, 6000))
+	nr := int64(r.Scale(72, 6000))
 	for i := int64(0); i < nr && !r.Stopped(); i++ {
 		if !r.Mine(1_500_000 + i) {
 			continue
@@ -125,7 +125,7 @@ func runC10(r *kit.Run) {
 // running.
 func c10StartRace(r *kit.Run, idx int64, rng *rand.Rand) {
 	observers := 2 + rng.IntN(5)
-	procs := []int{2, 4, 16, 16}[rng.IntN(4)]
+	procs := []int{4, 8, 16, 16}[rng.IntN(4)]
 	trials := 400
 	withShutdown := rng.IntN(2) == 0
 	desc := map[string]any{"mode": "start-race", "observers_calling_Wait_from_before_Start": observers, "fresh_services": trials, "shutdown_configured": withShutdown, "gomaxprocs": procs}
